@@ -43,6 +43,16 @@ def closed_input_set():
             ins.append(("sv", c["text"], "grammar:" + st))
     for t in AIMED:
         ins.append(("sv", t, "aimed"))
+    # directive-in-trivia family: every directive kind of the trivia language (incl. `resetall) directly behind a
+    # description-level construct and in front of a probe that depends on keyword state (small inputs: all capacities)
+    import c12
+    heads = ["timeunit 1ns;", "timeunit 1ns / 1ps;", "package p; endpackage", "import p::*;", "module h; endmodule", "interface i; endinterface",
+             "parameter int P = 1;", "typedef int t_t;", "function void f(); endfunction", "bind m n u();", "program q; endprogram"]
+    probes = ["module m; wire module; endmodule", "module m; wire w; assign w = 1'b0; endmodule", "module m; reg logic; endmodule"]
+    for h in heads:
+        for k in [k for k in c12.KT if k not in ("sp", "ht", "ff", "nl", "crlf")]:
+            for pr in probes:
+                ins.append(("sv", "%s\n%s\n%s\n" % (h, c12.KT[k], pr), "directive-in-trivia"))
     # deterministic order, duplicates removed
     seen = set()
     out = []
@@ -73,7 +83,7 @@ def run(tier, seed):
         # the seed only selects the sub-sample; aimed inputs always included
         idx = list(range(total))
         rng.shuffle(idx)
-        keep = set(idx[:350]) | {i for i, x in enumerate(ins) if x[2] == "aimed"}
+        keep = set(idx[:350]) | {i for i, x in enumerate(ins) if x[2] in ("aimed", "directive-in-trivia")}
         ins = [x for i, x in enumerate(ins) if i in keep]
     hcases = []
     for i, (kind, text, src) in enumerate(ins):
